@@ -334,6 +334,7 @@ struct cdef { int group; char *name, *descr; int hw, hr, hrun, ht, na, ot, imp; 
 static struct cdef cdefs[MAXC]; static int ncdefs;
 static struct cdef xdefs[MAXC]; static int nxdefs;
 static int cur_group;
+static char *gname[MAXG];          /* optional group names (NULL = unnamed) */
 
 static void parse_cdef(struct cdef *c, int group)
 {
@@ -402,7 +403,7 @@ static void build(void)
                 group_n[g] = n;
                 group_cmds[g] = calloc((size_t)(n ? n : 1), sizeof(struct cat_command));
                 for (i = 0; i < ncdefs; i++) if (cdefs[i].group == g) fill_cmd(&group_cmds[g][k++], &cdefs[i], ci++);
-                groups[g].name = NULL;
+                groups[g].name = gname[g];
                 groups[g].cmd = group_cmds[g];
                 groups[g].cmd_num = (size_t)n;
                 groups[g].disable = false;
@@ -565,6 +566,14 @@ static void run_op(void)
                 f = cat_search_command_by_name(&at, nm);
                 printf("= sc %d\n", f == NULL ? -1 : cmd_index(f));
                 free(nm); free(p);
+        } else if (strcmp(o, "sg") == 0) {
+                size_t n; uint8_t *p = unhex(tok[1], &n);
+                char *nm = calloc(n + 1, 1);
+                const struct cat_command_group *f;
+                memcpy(nm, p, n);
+                f = cat_search_command_group_by_name(&at, nm);
+                printf("= sg %d\n", f == NULL ? -1 : (int)(f - groups));
+                free(nm); free(p);
         } else if (strcmp(o, "sv") == 0) {
                 size_t n; uint8_t *p = unhex(tok[2], &n);
                 char *nm = calloc(n + 1, 1);
@@ -596,6 +605,7 @@ static void reset_all(void)
         free(extra_cmds); extra_cmds = NULL;
         for (i = 0; i < ncdefs; i++) { free(cdefs[i].name); free(cdefs[i].descr); }
         for (i = 0; i < nxdefs; i++) { free(xdefs[i].name); free(xdefs[i].descr); }
+        for (i = 0; i < MAXG; i++) { free(gname[i]); gname[i] = NULL; }
         ncdefs = nxdefs = 0; cur_group = -1; ngroups = 0; ncmds_total = 0; nreg = 0; nextra = 0;
         for (i = 0; i < nscripts; i++)
                 for (j = 0; j < scripts[i].n; j++) {
@@ -672,6 +682,8 @@ int main(void)
                         free(p);
                 } else if (strcmp(tok[0], "grp") == 0) {
                         cur_group++;
+                        free(gname[cur_group]);
+                        gname[cur_group] = (ntok > 1) ? cstr_from_hex(tok[1]) : NULL;
                 } else if (strcmp(tok[0], "cmd") == 0) {
                         if (cur_group < 0) cur_group = 0;
                         parse_cdef(&cdefs[ncdefs++], cur_group);
